@@ -163,7 +163,11 @@ def run_bs2d(case):
             want = ref_B(canon * LEN[lu], src_si, K_si, a_si)
             scale = max(np.abs(want).max(), 1e-300)
             for vector in (True, False):
+                K0_, pos0_, areas0_ = K.copy(), pos.copy(), areas.copy()
                 got = biot_savart_2d(x, y, z, positions=pos, current_densities=K, z0=z0, areas=areas, length_units=lu, current_units=cu, vector=vector)
+                if not (np.array_equal(K, K0_) and np.array_equal(pos, pos0_) and np.array_equal(areas, areas0_)):
+                    res.violate("caller-array-modified", units=f"{lu}/{cu}", detail={"current": cname})
+                    K[...] = K0_
                 g = got.to("tesla").magnitude
                 w = want if vector else want[:, 2]
                 res.count("comparisons")
@@ -325,6 +329,9 @@ def run_sol(case):
                         res.violate("applied-part-is-not-the-applied-potential", form=fname, units=fu, detail={"points": pn})
                 if fname == "m3":
                     results[(cname, pn)] = (np.asarray(tot), np.asarray(Atot) - app)
+        # evaluating fields must not change the currents they are evaluated from
+        if not (np.array_equal(sol.supercurrent_density.to(f"{cu}/{lu}").magnitude, Ks) and np.array_equal(sol.normal_current_density.to(f"{cu}/{lu}").magnitude, Kn)):
+            res.violate("evaluation-changes-the-stored-currents", units=f"{lu}/{cu}", detail={"current": cname})
     # additivity: mixSum = mixA + mixB
     for pn in ("five", "one_list"):
         if all((c, pn) in results for c in ("mixA", "mixB", "mixSum")):
